@@ -142,11 +142,23 @@ func (te *TimerEntry) run(ctx context.Context) error {
 	t := time.NewTimer(te.At.Sub(time.Now()))
 	select {
 	case <-t.C:
+		// Claim the entry before firing.  If the entry is gone
+		// (or is another timer that reuses the id), then this
+		// timer was cancelled while it was becoming due, and it
+		// must not fire.  Once the entry is claimed, the id is
+		// free for reuse.
+		te.timers.Lock()
+		current, have := te.timers.Map[te.Id]
+		if have && current == te {
+			delete(te.timers.Map, te.Id)
+		}
+		te.timers.Unlock()
+		if !have || current != te {
+			return nil
+		}
+
 		te.timers.c.Logf("Firing timer '%s'", te.Id)
 		te.timers.Emitter(ctx, te)
-		te.timers.Lock()
-		delete(te.timers.Map, te.Id)
-		te.timers.Unlock()
 		te.timers.c.Lock()
 		te.timers.changed()
 		te.timers.c.Unlock()
